@@ -18,6 +18,7 @@ from ..runner import Divergence, Driver, Env, Outcome, Violation, diff_streams
 THEOREMS = [
     "C28_source_shape",
     "C28_shipped_table",
+    "C28_shipped_contiguous",
     "C28_converges",
     "C28_same_schema",
     "C28_each_version_once",
@@ -26,6 +27,7 @@ THEOREMS = [
     "C28_idempotent",
     "C28_failed_not_recorded",
     "C28_shipped_converges",
+    "C28_shipped_same_final_state",
 ]
 LEAN_TARGETS = ["WfProps.C28"]
 EXPLANATION = (
@@ -236,10 +238,18 @@ class Ctx:
 
         self.env, self.out = env, out
         self.migrate, self.utils = migrate, migration_utils
+        try:  # the server's own entry points (SqliteWorkflowStore.run_migrations / constructor auto_migrate)
+            from llama_agents.server._store.sqlite.sqlite_workflow_store import SqliteWorkflowStore
+
+            self.store: Any = SqliteWorkflowStore
+        except Exception as e:  # noqa: BLE001
+            self.store = None
+            out.notes.append(f"SqliteWorkflowStore not importable here ({e!r}); store entry points not exercised")
         self.pkgs = Pkgs()
         self.ops: list[str] = []
         self.exp: list[str] = []
         self.ctxs: list[Any] = []
+        self.sampled: set = set()
 
     def op(self, line: str, expected: str, context: Any) -> None:
         self.ops.append(line)
@@ -528,6 +538,13 @@ def shipped_family() -> dict:
     for fl in range(n):
         starts.append({"legacy": None, "prefixes": [], "fault": fl})
         starts.append({"legacy": min(fl, 2), "prefixes": [], "fault": fl, "data": True})
+    for entry in ("store_static", "store_ctor", "store_single"):
+        starts.append({"legacy": None, "prefixes": [], "fault": None, "file_db": True, "entry": entry})
+        starts.append({"legacy": 2, "prefixes": [], "fault": None, "file_db": True, "entry": entry, "data": True})
+        if entry != "store_single":
+            # (a file already switched to WAL by an ordinary connection cannot be opened at all through the lock-free
+            # `unix-none` VFS that single_connection uses -- a deployment-mode matter, not a schema-version one)
+            starts.append({"legacy": None, "prefixes": [1], "fault": None, "file_db": True, "entry": entry})
     # the legacy layout of the package's own tests: one consolidated CREATE TABLE
     starts.append({"legacy": 1, "prefixes": [], "fault": None, "normalized": True, "legacy_sql":
                    "CREATE TABLE IF NOT EXISTS handlers (handler_id TEXT PRIMARY KEY, workflow_name TEXT, status TEXT, ctx TEXT);"})
@@ -639,6 +656,22 @@ def run_family(ctx: Ctx, fam: dict) -> None:
             wellformed = False
         scratch.close()
     out.count("family:" + fam["kind"] + (":wellformed" if wellformed else ":irregular"))
+    if shipped and not wellformed:
+        # the shipped list itself is in the property's scope whatever it looks like
+        out.violations.append(Violation("C28/shipped_list_malformed",
+                                        f"the loader reads the shipped migrations as {[(n, v) for n, _t, v in order0]}: versions must be positive and "
+                                        "strictly increasing in file order and the scripts must apply to an empty database",
+                                        {"family": dict(fam, starts=fam["starts"][:1]), "start": fam["starts"][0]}))
+        wellformed = True  # keep the converge / once / idempotent monitors on
+
+    # the shipped directory read by the harness itself, by the documented convention (first line is exactly
+    # `-- migration: N`): an oracle that does not go through the code's own header parser or loader
+    declared: list[tuple[str, int, list[str]]] = []
+    if shipped:
+        for n, t in sorted(src_specs[0][1]):
+            m = re.fullmatch(r"-- migration: (\d+)", t.split("\n", 1)[0].rstrip()) if n.endswith(".sql") else None
+            if m:
+                declared.append((n, int(m.group(1)), [s_[2] for s_ in parse_sql(t) if s_[0] == "ct"]))
 
     real_sources = None if shipped else [(p, m) for (p, _f), m in zip(src_specs, mods)]
     model_full = "runshipped" if shipped else "run " + enc_sources([(p, l) for (p, _f), l in zip(src_specs, listings)])
@@ -664,6 +697,8 @@ def run_family(ctx: Ctx, fam: dict) -> None:
         kind = start_kind(st)
         case = {"family": dict(fam, starts=[st]), "start": st}
         out.count("start:" + kind)
+        if st.get("entry"):
+            out.count("entry:" + st["entry"])
         path = ctx.pkgs.db_path() if st.get("file_db") else ":memory:"
         conn: Any = sqlite3.connect(path) if st.get("bare") else sqlite3.connect(path, factory=Conn)
         ctx.op("fresh", canon(conn), case)
@@ -711,7 +746,43 @@ def run_family(ctx: Ctx, fam: dict) -> None:
                 out.count("fault:" + ("hit" if conn.fault_hits else "not_reached"))
                 conn.fault_hits = 0
         # the run under test, then once more
-        r1, raised1 = real_run(ctx, conn, real_sources, texts_full, None) if not st.get("bare") else bare_run(ctx, conn, real_sources)
+        entry = st.get("entry")
+        if entry and (ctx.store is None or not shipped):
+            conn.close()
+            continue
+        if path != ":memory:":  # a restart: what is on disk is what counts
+            conn.close()
+            conn = sqlite3.connect(path) if st.get("bare") else sqlite3.connect(path, factory=Conn)
+
+        def final_run() -> tuple[str, bool]:
+            nonlocal conn
+            if entry:
+                conn.close()
+                exc = None
+                try:
+                    if entry == "store_static":
+                        ctx.store.run_migrations(path)
+                    elif entry == "store_ctor":
+                        ctx.store(path)
+                    else:
+                        import time as _time
+
+                        real_sleep = _time.sleep
+                        _time.sleep = lambda _s: None  # the WAL retry loop sleeps 1.5 s under the lock-free VFS
+                        try:
+                            s_ = ctx.store(path, single_connection=True)
+                            s_._persistent_conn.close()
+                        finally:
+                            _time.sleep = real_sleep
+                except Exception as e:  # noqa: BLE001
+                    exc = e
+                conn = sqlite3.connect(path, factory=Conn)
+                return (f"raised {type(exc).__name__} " if exc is not None else "ok ") + canon(conn), exc is not None
+            if st.get("bare"):
+                return bare_run(ctx, conn, real_sources)
+            return real_run(ctx, conn, real_sources, texts_full, None)
+
+        r1, raised1 = final_run()
         ctx.op(model_full, r1, case)
         out.evaluations += 1
         out.count("final:" + ("raised" if raised1 else "ok"))
@@ -732,14 +803,27 @@ def run_family(ctx: Ctx, fam: dict) -> None:
                         if cnt != 1:
                             out.violations.append(Violation(f"C28/version_count/{kind}", f"version {p}:{v} recorded {cnt} times from start {st_brief(st)}", case))
                             break
-            r2, raised2 = real_run(ctx, conn, real_sources, texts_full, None) if not st.get("bare") else bare_run(ctx, conn, real_sources)
+            if declared and sess_ok:
+                tables = {r_[1].lower() for r_ in d1["user"] if r_[0] == "table"}
+                for n_, v_, made in declared:
+                    cnt = sum(1 for row in d1["rows"] if row[0] == SERVER and row[1] == v_)
+                    if cnt != 1:
+                        out.violations.append(Violation(f"C28/declared_version_count/{kind}", f"{n_} declares migration {v_}; recorded {cnt} times after run_migrations from start {st_brief(st)}", case))
+                        break
+                    if any(t_ not in tables for t_ in made):
+                        out.violations.append(Violation(f"C28/declared_table_missing/{kind}", f"{n_} (migration {v_}) creates {made}; missing after run_migrations from start {st_brief(st)}", case))
+                        break
+            r2, raised2 = final_run()
             ctx.op(model_full, r2, case)
             out.evaluations += 1
             d2 = raw_dump(conn)
             if raised2 or d2 != d1:
                 out.violations.append(Violation(f"C28/second_run_changes/{kind if wellformed else 'irregular'}",
                                                 f"a second run {'raised' if raised2 else 'changed the database'} (start {st_brief(st)})", case))
-        out.sample({"family": fam.get("label", fam["kind"]), "start": st_brief(st), "versions": vers0, "result": r1[:120]})
+        key = (fam["kind"], fam.get("wild"), kind)
+        if key not in ctx.sampled:
+            ctx.sampled.add(key)
+            out.sample({"family": fam.get("label", fam["kind"]), "start": st_brief(st), "versions": vers0, "result": r1[:160]}, cap=12)
         conn.close()
 
 
@@ -812,7 +896,7 @@ def run(env: Env) -> Outcome:
         fams.append(shipped_family())
         fams += corpus_families()
         rng = random.Random(env.rng.randrange(1 << 30))
-        n = min(env.budget(150, 1500), 4000)  # (deep mode multiplies by 10: keep the widened search inside the time limit)
+        n = min(env.budget(100, 1500), 4000)  # (deep mode multiplies by 10: keep the widened search inside the time limit)
         for i in range(n):
             fams.append(gen_family(rng, wild=(i % 2 == 1), nstarts=3 if env.tier == "quick" else 4))
         # header parser on its own: random first lines
